@@ -697,12 +697,12 @@ func dataSexp(v interface{}) sexp.Node {
 		if n, err := strconv.Atoi(strings.TrimPrefix(x, "E")); err == nil {
 			return sexp.T("int", sexp.Int(n))
 		}
-		return sexp.T("unknown", sexp.Str(x))
+		return sexp.T("int", sexp.Int(-1)) // no leaf value is negative: reported as differing data
 	case float64:
 		if float64(int(x)) == x {
 			return sexp.T("int", sexp.Int(int(x)))
 		}
-		return sexp.T("unknown", sexp.Str(fmt.Sprint(x)))
+		return sexp.T("int", sexp.Int(-1))
 	}
 	rv := reflect.ValueOf(v)
 	switch rv.Kind() {
